@@ -14,10 +14,10 @@ for f in glob.glob(sys.argv[1]+'/result.*.json'):
     r=json.load(open(f)); ev+=r['evaluations']; done+=1; walls.append(r['wall_s'])
     nt|=set(r['nontrivial_sigs'] or [])
     inc+=r['inconclusive'] or []
-    for k,v in r['counters'].items(): c[k]+=v
+    for k,v in r['counters'].items(): c[k]=max(c[k],v) if k.startswith('max_') else c[k]+v
     for v in r['violations'] or []:
         sig[v['sig']]+=1
-        if sig[v['sig']]<3: print(v['index'],v['sub'],v['summary'][:400])
+        if sig[v['sig']]<3: print(v['index'],v.get('sub',''),v['summary'][:400])
 print('shards done',done,'evals',ev,'nontrivial',len(nt),'max shard wall %.1fs'%(max(walls) if walls else 0)); print(dict(c)); print(dict(sig)); print(inc[:5])
 print('results/logs in',sys.argv[1])
 PY
